@@ -35,19 +35,6 @@ open ThermoVerif.Phases
 
 /-! ### conversions keep totals, T, P -/
 
-theorem conversion_same {w w' : World} {op : Op} {k : Nat} (hop : op.isConversion = true)
-    (ht : op.target = some k) (h : w.step op = .ok w') : Same w w' k := by
-  have hb := (step_ok h).2
-  cases op with
-  | setPhases k' ps => cases ht; exact setPhases_same hb
-  | setPhase k' ls => cases ht; exact setPhase_same hb
-  | reduce k' => cases ht; exact reduce_same hb
-  | asStream k' => cases ht; exact asStream_same hb
-  | vle k' => cases ht; exact accessor_same hb
-  | lle k' => cases ht; exact accessor_same hb
-  | sle k' => cases ht; exact accessor_same hb
-  | _ => simp [Op.isConversion] at hop
-
 /-- `convert_totals`: every conversion (`phases=`, `phase=`, `reduce_phases`, `as_stream`, `vle`/`lle`/`sle`
 accessor) of stream `k` that does not raise keeps the total flow of every chemical, T and P — whatever the
 target set (so in particular for every target that contains every non-empty phase up to case). -/
